@@ -6,6 +6,7 @@ actor; the handler perturbs / gates the hook points inside Compactor::run, trans
 commit). By construction the final content is the same for every legal interleaving:
 acknowledged inserts minus acknowledged deletes. Checked after all operations and passes have
 finished, and again after shutdown + reopen. A statement that failed must have had no effect."""
+from sqlcase import is_conflict_text
 import os
 import random
 
@@ -99,7 +100,7 @@ def judge(sc, rows, effects_all, out):
                         v.append(("delete-count", f"{hh['sql'][:60]} reported {n} for {len(arg)} ids"))
             else:
                 info["failed"] += 1
-                if "replaced by a concurrent compaction" in (hh.get("err") or ""):
+                if is_conflict_text(hh.get("err")):
                     info["conflicts"] += 1
                 kind, name, arg = eff
                 maybe[name][i, c] = eff
